@@ -149,6 +149,26 @@ class C20(Prop):
                 body = sx.named(fs) if kind == 'named' else (sx.unnamed(fs) if kind == 'tuple' else sx.UNIT)
                 va = [sx.a_default(sx.M_PATH)] if ('Default' in traits and is_enum and vi == dv and (nvar > 1 or rng.random() < 0.5)) else []
                 vs_s.append((body, va))
+            # a variant-level `bound(T: Trait)` (no `..`) on a non-last variant: sufficient for that variant's fields, and
+            # it must not leak into the variants after it
+            if is_enum and nvar >= 2 and 'T' in needs and rng.random() < 0.45:
+                # (a trait whose sub-traits are derived too is left alone: restricting `Clone` below what the `Copy` impl
+                # can prove of its supertrait is the user's own type error)
+                cands = [t for t in ('Debug', 'Clone', 'PartialEq', 'Hash') if t in traits
+                         and not (t == 'Clone' and 'Copy' in traits)
+                         and not (t == 'PartialEq' and set(traits) & {'Eq', 'PartialOrd', 'Ord'})]
+                if cands:
+                    tr = rng.choice(cands)
+                    path = {'Debug': ['core', 'fmt', 'Debug'], 'Clone': ['Clone'], 'PartialEq': ['PartialEq'],
+                            'Hash': ['core', 'hash', 'Hash']}[tr]
+                    # prefer a variant without parameter-typed fields: an empty `bound()` is sufficient for it and says
+                    # nothing about `T`, so the later variants depend on their own default bounds
+                    free = [i for i in range(nvar - 1) if not any('T' in ft[1] for ft in variants[i][1])]
+                    vi = rng.choice(free) if free else rng.randrange(nvar - 1)
+                    pred = [] if free else [sx.b_pred(sx.wty(T, [sx.tb_trait(path)]))]
+                    attrs_used.add('variant-bound-empty' if free else 'variant-bound-pred')
+                    vs_s[vi] = (vs_s[vi][0], vs_s[vi][1] + [sx.a_derive_ex(sx.dx([(tr, (pred, False))]))])
+                    attrs_used.add('variant-bound-' + tr)
             # generics: only parameters some field uses; a default only on the last parameter
             params, where = [], []
             if "'a" in needs:
